@@ -10,7 +10,9 @@ PATCHES="$@"
 [ -z "$PATCHES" ] && PATCHES=$(cd $ROOT/selftest/$ID && ls *.patch | sed 's/\.patch$//')
 for p in $PATCHES; do
   f=$ROOT/selftest/$ID/$p.patch; [ -f "$f" ] || f=$ROOT/selftest/$ID/$p
-  rm -rf $SCR; mkdir -p $SCR
+  # fresh build directory per mutant: rsync restores original files with their old mtimes, so an
+  # incremental build would keep the previous mutant's objects
+  rm -rf $SCR $ROOT/build/alt-thr-$ID-*; mkdir -p $SCR
   rsync -a --exclude _build --exclude .git /repo/ $SCR/repo/
   (cd $SCR/repo && patch -p1 -s < $f) || { echo "$ID $p: PATCH-FAILED"; continue; }
   t0=$(date +%s)
